@@ -552,7 +552,13 @@ struct Engine {
             check_identity<St>(s3, as_s, identity, "copied, moved");
             VP<T> t(s3);
             check_identity<T>(t, as_t, identity, "converted");
-            return t;
+            // copy- and move-assignment from a pointer to another object
+            VP<T> u(*objects.template as<T>(index_of<T>));
+            u = t;
+            VP<T> v(*objects.template as<T>(index_of<T>));
+            v = std::move(u);
+            check_identity<T>(v, as_t, identity, "assigned");
+            return v;
         }
         default: {
             const VP<Dt> e(obj);
